@@ -58,6 +58,43 @@ class Check:
     def has_fn(self, key):
         return key in self.fns
 
+    def _new_helpers_at(self, site):
+        """functions that are not in refs/baseline_fns.json and are called (directly or through one more call) by the function a site names"""
+        import re as _re
+        m = _re.search(r'\(([^()]*(?:\([^()]*\)[^()]*)*)\)\s*$', site or '')
+        if not m:
+            return set()
+        key = m.group(1)
+        if not hasattr(self, '_newfn'):
+            try:
+                import json as _json
+                base = set(_json.load(open(os.path.join(os.path.dirname(os.path.dirname(os.path.abspath(__file__))), 'refs', 'baseline_fns.json')))['fns'])
+            except Exception:
+                base = None
+            self._newfn = set(k for k, f in self.fns.items() if base is not None and k not in base and not f.get('macro'))
+            self._nh_cache = {}
+        if not self._newfn or key not in self.fns:
+            return set()
+        if key not in self._nh_cache:
+            from . import hir as _hir
+            out = set([key]) & self._newfn
+            level = [key]
+            for _d in range(2):
+                nxt = []
+                for k in level:
+                    f = self.fns.get(k)
+                    if not f:
+                        continue
+                    for c in _hir.calls(f['hir']):
+                        cal = _hir.callee(c) or ''
+                        if cal in self._newfn:
+                            out.add(cal)
+                        if cal in self.fns and cal not in nxt:
+                            nxt.append(cal)
+                level = nxt
+            self._nh_cache[key] = out
+        return self._nh_cache[key]
+
     def site(self, fnkey, node=None):
         f = self.fns.get(fnkey)
         if f is None:
@@ -79,6 +116,13 @@ class Check:
         if ok is UNDECIDED:
             self.undecided.append({'key': '%s/%s' % (rule, key), 'rule': rule, 'site': site, 'msg': msg})
             return None
+        if not ok and not rule.startswith(('E3', 'E4')):
+            nh = self._new_helpers_at(site)
+            if nh:
+                # a helper introduced after the rules were written stands between the rule and the code it reads: not a refutation
+                self.undecided.append({'key': '%s/%s' % (rule, key), 'rule': rule, 'site': site,
+                                       'msg': '%s [the function now goes through %s, which did not exist when this rule was written and which it does not follow]' % (msg, ', '.join(sorted(nh)[:2]))})
+                return None
         if ok:
             self.discharged += 1
             r[1] += 1
